@@ -18,12 +18,12 @@ CLS = {"2": CVSS2, "3": CVSS3, "4": CVSS4}
 VER = {CVSS2: "2", CVSS3: "3", CVSS4: "4"}
 
 
-def construct(ver, s, rh=False, with_json=True, reparse=True):
+def construct(ver, s, rh=False, with_json=True, reparse=True, order=None):
     try:
         obj = CLS[ver].from_rh_vector(s) if rh else CLS[ver](s)
     except Exception as e:  # noqa - any exception class is an observation
         return None, {"cls": "exc", "e": exc_obs(e)}
-    o = observe(obj, ver, with_json)
+    o = observe(obj, ver, with_json, order)
     o["cls"] = "ok"
     o["minor"] = getattr(obj, "minor_version", -1) if ver == "3" else -1
     if reparse:
@@ -55,11 +55,13 @@ def construct(ver, s, rh=False, with_json=True, reparse=True):
 def main():
     job = json.load(io.open(sys.argv[1], encoding="utf-8"))
     out = []
-    for it in job["items"]:
+    for n, it in enumerate(job["items"]):
         op = it["op"]
         ev = dict(it)
         if op in ("construct", "fromrh"):
-            _, ev["out"] = construct(it["ver"], unesc(it["s"]), rh=(op == "fromrh"), with_json=it.get("json", True))
+            # two of three events observe the object in a seeded random accessor order
+            order = None if n % 3 == 0 else (job.get("seed", 0) * 1000003 + n)
+            _, ev["out"] = construct(it["ver"], unesc(it["s"]), rh=(op == "fromrh"), with_json=it.get("json", True), order=order)
             if op == "fromrh":
                 raw = unesc(it["s"])
                 if "/" in raw:
